@@ -365,8 +365,11 @@ func genRt(out *wh.Out, a wh.Args, rng *wh.Rng) {
 	}
 	for i := 0; i < n && !overBudget(out); i++ {
 		c := rtCase{kp: rng.Intn(4), ks: rng.Intn(4), km: 1}
-		if rng.Intn(8) == 0 {
-			c.km = 2 * rng.Intn(2) // middleware twice / not at all: outside the property's quantifier, model conformance only
+		switch rng.Intn(16) {
+		case 0, 1:
+			c.km = 2 // middleware registered twice: open finding handler-middleware-applied-twice (every invocation observed twice)
+		case 2:
+			c.km = 0 // middleware not registered: outside the property, model conformance only
 		}
 		for j, k := 0, rng.Intn(6); j < k; j++ {
 			switch rng.Intn(6) {
